@@ -1,0 +1,58 @@
+//go:build verif
+
+package piece
+
+import "github.com/jech/storrent/mono"
+
+// VerifYield, when non-nil, is called at the points of the piece store
+// where no lock is held and another goroutine may interleave.  It is
+// only compiled in with the "verif" build tag and is used by the
+// verification harness as a scheduler gate.
+var VerifYield func(point string, index uint32)
+
+func verifYield(point string, index uint32) {
+	if f := VerifYield; f != nil {
+		f(point, index)
+	}
+}
+
+// VerifPieceState is a snapshot of the internal state of a piece.
+type VerifPieceState struct {
+	HasData  bool
+	DataLen  int
+	State    uint32
+	Chunks   int
+	Bits     []bool
+	NumPeers int
+	Time     mono.Time
+}
+
+// VerifSnapshot returns the internal state of the store.
+func (ps *Pieces) VerifSnapshot() (deleted bool, count int, pieces []VerifPieceState) {
+	ps.mu.RLock()
+	defer ps.mu.RUnlock()
+	pieces = make([]VerifPieceState, len(ps.pieces))
+	for i := range ps.pieces {
+		p := &ps.pieces[i]
+		n := ps.pieceChunks(uint32(i))
+		bits := make([]bool, n)
+		for c := 0; c < n; c++ {
+			bits[c] = p.bitmap.Get(c)
+		}
+		pieces[i] = VerifPieceState{
+			HasData:  p.data != nil,
+			DataLen:  len(p.data),
+			State:    p.state,
+			Chunks:   n,
+			Bits:     bits,
+			NumPeers: len(p.peers),
+			Time:     p.Time(),
+		}
+	}
+	return ps.deleted, ps.count, pieces
+}
+
+// VerifSetTime sets the access time of a piece.
+func (ps *Pieces) VerifSetTime(index uint32, t mono.Time) {
+	ps.pieces[index].SetTime(t)
+}
